@@ -199,7 +199,13 @@ func parent(id string, ck *Check, tier string) int {
 		}
 	}
 	if broken {
-		return 2
+		// part of the exploration could not run. Whatever the healthy workers found is still real: report it
+		// (exit 1); with nothing found the run says nothing and is broken (exit 2).
+		if len(merged.Violations) == 0 {
+			return 2
+		}
+		merged.Capped = true
+		merged.Note("part of the exploration was broken (see stderr); the violations below come from the workers that ran")
 	}
 	if ck.Post != nil {
 		ck.Post(&Ctx{ID: id, Tier: tier, Quick: tier == "quick", Seed: seed(), R: merged})
